@@ -27,7 +27,7 @@ func init() {
 		Run: runC15,
 		Assumptions: []string{
 			"stop-time lists are checked through C14's transition invariants, not re-derived here; NumScheduleChanges/NumScheduleRewrites are not part of the statement and are not compared",
-			"trip ids are NYCT-format (>= 6 characters) and no two distinct trips of a history share (start instant, suffix)",
+			"trip ids are NYCT-format (>= 6 characters); a third of the histories contain pairs of trip descriptors with one and the same (start instant, suffix) - for an identity that some feed names twice only membership in the result is asserted, not its fields",
 		},
 	})
 }
@@ -40,6 +40,9 @@ type c15Ref struct {
 	lastObserved                    time.Time
 	markedPast                      *time.Time
 	numUpdates                      int
+	// twin: some feed named this identity twice (two trip descriptors with the same start instant and suffix); the
+	// statement does not say what is recorded for it then, so its fields are not asserted
+	twin bool
 }
 
 // c15Replay is the reference journal: a direct replay of the parsed feeds, written from the statement.
@@ -52,12 +55,15 @@ func c15Replay(feeds []*gtfs.Realtime) map[string]*c15Ref {
 		for i := range rt.Trips {
 			tr := &rt.Trips[i]
 			uid := uidOf(tr)
-			now[uid] = true
 			ref, ok := trips[uid]
 			if !ok {
 				ref = &c15Ref{uid: uid}
 				trips[uid] = ref
 			}
+			if now[uid] {
+				ref.twin = true
+			}
+			now[uid] = true
 			hasVehicle := tr.Vehicle != nil
 			if ref.assigned && !hasVehicle {
 				continue // once seen with a vehicle, updates that lack one do not alter the recorded data
@@ -114,6 +120,10 @@ func c15Compare(c *core.Ctx, feeds []*gtfs.Realtime, from, to time.Time, kind st
 	for i := range j.Trips {
 		g := &j.Trips[i]
 		w := ref[journalKey(g)]
+		if w.twin {
+			c.Skip("fields-of-an-identity-named-twice-in-one-feed-not-asserted")
+			continue
+		}
 		c.Cmp(9)
 		mism := func(field string, a, b any) {
 			c.Violationf("C15|field|"+field, detail(), "trip %s: %s is %v, expected %v", g.TripUID, field, a, b)
@@ -177,7 +187,7 @@ func runC15(c *core.Ctx) {
 	if c.Thorough() {
 		maxFeeds = 16
 	}
-	o := hgen.Opts{MaxFeeds: maxFeeds, MaxTrips: 4, AlwaysAssigned: c.Index%3 == 0, RepeatStops: c.Index%5 == 0}
+	o := hgen.Opts{MaxFeeds: maxFeeds, MaxTrips: 4, AlwaysAssigned: c.Index%3 == 0, RepeatStops: c.Index%5 == 0, Twins: c.Index%3 == 1}
 	long := false
 	if fc := c15FeedCounts(c.Tier); c.Index < 4*len(fc) {
 		// size sweep: long histories (a trip stays unassigned for a long time, vanishes around the threshold, comes back)
